@@ -167,6 +167,29 @@ def parseInt64 (s : String) : Option Int :=
   else
     let v := s.toList.foldl (fun a c => a * 10 + (c.toNat - '0'.toNat)) 0
     if v ≤ 9223372036854775807 then some (v : Int) else none
+/-- strconv.ParseFloat(s, 64) reports a range error (LiteralVisitor then records "invalid double literal") exactly when the decimal
+value is at least 2^1024 - 2^970, half an ulp above the largest double (the tie rounds to even, i.e. up); underflow is not an
+error. `s` is a token of the grammar: digits [. digits] [e [-] digits]. -/
+def floatOverflows (text : String) : Bool :=
+  let cs := text.toList
+  let mant := cs.takeWhile (fun c => c != 'e' && c != 'E')
+  let expPart := (cs.dropWhile (fun c => c != 'e' && c != 'E')).drop 1
+  let ip := mant.takeWhile (· != '.')
+  let fp := (mant.dropWhile (· != '.')).drop 1
+  let (neg, ed) := match expPart with
+    | '-' :: ds => (true, ds)
+    | '+' :: ds => (false, ds)
+    | ds => (false, ds)
+  if !(ip.all isDigit) || !(fp.all isDigit) || !(ed.all isDigit) then false else
+  let m : Nat := (ip ++ fp).foldl (fun a c => a * 10 + (c.toNat - 48)) 0
+  if m == 0 then false else
+  let edS := ed.dropWhile (· == '0')
+  if edS.length > 5 then !neg else
+  let e : Nat := edS.foldl (fun a c => a * 10 + (c.toNat - 48)) 0
+  let thr : Nat := 2 ^ 1024 - 2 ^ 970
+  if neg then decide (m ≥ thr * 10 ^ (e + fp.length))
+  else if e ≥ fp.length then decide (m * 10 ^ (e - fp.length) ≥ thr)
+  else decide (m ≥ thr * 10 ^ (fp.length - e))
 /-- strconv.ParseBool -/
 def parseBool (s : String) : Option Bool :=
   if ["1", "t", "T", "TRUE", "true", "True"].contains s then some true
@@ -482,7 +505,8 @@ def bLiteral : Nat → Tree → R Expr
               match parseInt64 (getText (f + 1) n) with
               | some v => .ok (.lit (.int v))
               | none => .error (.rejected "invalid integer literal")
-            else .ok (.lit (.float (getText (f + 1) n)))   -- strconv.ParseFloat range errors are not modelled
+            else if floatOverflows (getText (f + 1) n) then .error (.rejected "invalid double literal")
+            else .ok (.lit (.float (getText (f + 1) n)))
         | "oC_ListLiteral" => (mapM' (bExpr f) (kidsOfRule N k "oC_Expression")).map Expr.list
         | "oC_MapLiteral" => bMap f k
         | _ => un N k
@@ -947,7 +971,7 @@ def fmtFloat (text : String) : Option String :=
   let e : Nat := ed.foldl (fun a c => a * 10 + (c.toNat - 48)) 0
   let all := ip ++ fp
   let sig := stripTrailingZeros (stripLeadingZeros all)
-  if sig.length > 15 || e > 40 then none else
+  if sig.length > 15 || e > 300 then none else
   -- position of the decimal point inside `all`, counted from the left
   let (intDigits, fracDigits) :=
     if neg then
